@@ -52,7 +52,24 @@ const preludeSorts = `(declare-sort GStr 0)
 (declare-fun bandnot (Int Int) Int)
 `
 
-const preludeAxioms = `(assert (forall ((b Int) (s Int) (i Int) (f Int)) (! (= (cidx b s i f) (+ b (* s i) f)) :pattern ((cidx b s i f)))))
+const preludeAxioms = `(declare-fun born (Int) Int)
+(declare-fun seedp_Int (Int) Bool)
+(declare-fun seedp_Bool (Bool) Bool)
+(declare-fun seedp_GStr (GStr) Bool)
+(declare-fun seedp_Loc (Loc) Bool)
+(declare-fun seedp_Slice (Slice) Bool)
+(declare-fun seedp_Iface (Iface) Bool)
+(declare-fun seedp_F64 (F64) Bool)
+(declare-fun seedp_F32 (F32) Bool)
+(assert (forall ((x Int)) (! (seedp_Int x) :pattern ((seedp_Int x)))))
+(assert (forall ((x Bool)) (! (seedp_Bool x) :pattern ((seedp_Bool x)))))
+(assert (forall ((x GStr)) (! (seedp_GStr x) :pattern ((seedp_GStr x)))))
+(assert (forall ((x Loc)) (! (seedp_Loc x) :pattern ((seedp_Loc x)))))
+(assert (forall ((x Slice)) (! (seedp_Slice x) :pattern ((seedp_Slice x)))))
+(assert (forall ((x Iface)) (! (seedp_Iface x) :pattern ((seedp_Iface x)))))
+(assert (forall ((x F64)) (! (seedp_F64 x) :pattern ((seedp_F64 x)))))
+(assert (forall ((x F32)) (! (seedp_F32 x) :pattern ((seedp_F32 x)))))
+(assert (forall ((b Int) (s Int) (i Int) (f Int)) (! (= (cidx b s i f) (+ b (* s i) f)) :pattern ((cidx b s i f)))))
 (assert (forall ((r Int)) (! (=> (<= r 0) (existed r)) :pattern ((existed r)))))
 (assert (forall ((s GStr)) (! (>= (slen_s s) 0) :pattern ((slen_s s)))))
 (assert (= (slen_s str_empty) 0))
